@@ -464,13 +464,15 @@ class TypeRender:
         if self.foreign:
             # the item's own surroundings: doc comments and lint attributes before / between / after the derive and educe
             # attributes, and a visibility
-            how = pick(['', 'doc-first', 'allow-mid', 'both', 'vis'], 'foreign-item', self.idx)
+            how = pick(['', 'doc-first', 'allow-mid', 'both', 'vis', 'vis-in'], 'foreign-item', self.idx)
             if how in ('doc-first', 'both'):
                 head = '#[doc = "t"] ' + head
             if how in ('allow-mid', 'both'):
                 head = head + '#[allow(dead_code)] '
             if how in ('vis', 'both'):
                 head = head + 'pub(crate) '
+            if how == 'vis-in':
+                head = head + 'pub(in crate) '
         g = self.generics_decl()
         w = self.where_decl()
         if c['kind'] == 'struct':
@@ -485,8 +487,17 @@ class TypeRender:
         vs = []
         for v, var in enumerate(c['variants'], 1):
             d = '' if var.get('disc', NO_DISC) == NO_DISC else ' = %s' % self.disc_text(v, int(var['disc']))
-            vs.append('%sV%d%s%s' % (self.variant_attr(v, var), v, self.fields_src(v, var), d))
+            vs.append('%s%s%s%s' % (self.variant_attr(v, var), self.vname(v), self.fields_src(v, var), d))
         return '%senum %s%s%s { %s }' % (head, self.name, g, (' ' + w if w else ''), ', '.join(vs))
+
+    VNAME_PROPS = ('C02', 'C03', 'C04', 'C05', 'C07', 'C08', 'C09', 'C10')
+
+    def vname(self, v):
+        """the identifier of variant v: `V<v>`, except that in a sixth of the run-time configurations the first variant is
+        called like the type itself (`enum T7 { T7(..), V2 }`)"""
+        if v == 1 and not self.canonical and self.prop in self.VNAME_PROPS and hpick(6, self.idx, 'vname') == 0:
+            return self.name
+        return 'V%d' % v
 
     def disc_text(self, v, n):
         """an explicit discriminant, written as a decimal, hexadecimal or separated literal (the same integer)"""
@@ -510,7 +521,7 @@ class TypeRender:
     # ------------------------------------------------------------ Case impl
     def ctor(self, v, var, side='s', vals='x'):
         c = self.cfg
-        path = self.name if c['kind'] != 'enum' else '%s::V%d' % (self.name, v)
+        path = self.name if c['kind'] != 'enum' else '%s::%s' % (self.name, self.vname(v))
         n = len(var['fields'])
         if var['style'] == 'unit':
             return path
@@ -537,7 +548,7 @@ class TypeRender:
 
     def var_pattern(self, v, var, names):
         c = self.cfg
-        path = self.name if c['kind'] != 'enum' else '%s::V%d' % (self.name, v)
+        path = self.name if c['kind'] != 'enum' else '%s::%s' % (self.name, self.vname(v))
         if var['style'] == 'named':
             return '%s { %s }' % (path, ', '.join('%s: %s' % (self.fname(v, i), g) for i, g in enumerate(names, 1)))
         if var['style'] == 'tuple':
